@@ -393,7 +393,9 @@ func checkCase(c Case) fw.Outcome {
 	nstmts, maxDepth, comments, quoted := 0, 0, false, false
 	for li, l := range c.Layouts {
 		st := build(c.Root, l)
-		text, infos := yg.Render([]*yg.Stmt{st}, "\n")
+		// what follows the last token: a line break, nothing, or a comment - a line comment also as the very last thing
+		// of the text, without a line break after it
+		text, infos := yg.Render([]*yg.Stmt{st}, []string{"\n", "", " // end", "\n// last line", " /* c */", "\n//", "\r\n// x\r"}[(li+len(c.Layouts))%7])
 		if li == 0 {
 			out.Key = text
 			nstmts = len(infos)
